@@ -41,6 +41,8 @@ RoundTripCell == \A c \in NonImplied : VarCell(T, d, m, para, CellVar(T, d, m, p
 OrderPreserved == LET ni == NonImplied IN SelectSeq(SL, LAMBDA c : c \in ni) = VL
 ImpliedWellFormed == para => LET ni == NonImplied IN \A c \in Cells(T, d, m) \ ni :
                         ImpliedForm(T, d, m, c).minus \subseteq ni
+SubtractedConsistent == para => \A c \in NonImplied : \A ic \in ImpliedCells(T, d, m) :
+                        (c \in ImpliedForm(T, d, m, ic).minus) <=> (ic \in SubtractedIn(T, d, m, c))
 \* counting: implied cells = what the equality constraint removes
 ImpliedCount == para => StackLen(T, d, m) - NumVar(T, d, m, para) =
                          (CASE T = "state" -> 1 [] T = "povm" -> Sq(d) [] T = "gate" -> Sq(d) [] T = "mprocess" -> Sq(d))
